@@ -53,6 +53,7 @@ var familyWeights = []struct {
 	{"engine", "contact-missing-fields", 4}, {"engine", "mix", 14},
 	{"migrate", "mix", 6}, {"migrate", "legacy-corpus", 3}, {"clone", "mix", 5}, {"query", "mix", 5},
 	{"xobject", "mix", 4}, {"xobject", "casevariant-get", 3},
+	{"definition", "invalid-headers", 3},
 	{"services", "dtone-two-currencies", 2}, {"services", "luis-intent-ties", 2}, {"services", "luis-distinct-scores", 2}, {"services", "wit-entity-roles", 2},
 }
 
@@ -99,6 +100,8 @@ func buildScenarios(seed uint64, n int) []*scenario {
 			s = xobjectScenario(g, fw.feature, i)
 		case "services":
 			s = servicesScenario(g, fw.feature, i)
+		case "definition":
+			s = invalidDefScenario(g, i)
 		}
 		res = append(res, s)
 	}
@@ -206,6 +209,10 @@ func classify(s *scenario, outName string, a, b []byte) (string, string) {
 		if i := strings.Index(outName, "."); i >= 0 {
 			outName = "sprint" + outName[i:]
 		}
+	}
+	if s.Family == "definition/invalid-headers" {
+		// what reading an invalid definition reports (class of the fixed: line of f501005)
+		return "definition:validation-error-text", p
 	}
 	cls := s.Family + "@" + outName
 	if p != "" {
